@@ -339,6 +339,168 @@ pub fn dump_state(w: &mut World) -> T {
     ])
 }
 
+// ---------------------------------------------------------------- digests of whole databases
+
+pub fn digest_db<D>(db: &Database<D>) -> [u8; 32]
+where
+    D: fuel_core::database::database_description::DatabaseDescription,
+{
+    use fuel_core_storage::{iter::{IterDirection, IterableStore}, kv_store::StorageColumn};
+    use fuel_core_types::fuel_crypto::Hasher;
+    let mut h = Hasher::default();
+    for col in enum_iterator::all::<D::Column>() {
+        h.input(col.id().to_be_bytes());
+        for kv in db.iter_store(col, None, None, IterDirection::Forward) {
+            let (k, v) = kv.expect("iteration");
+            h.input((k.len() as u32).to_be_bytes());
+            h.input(&k);
+            h.input((v.len() as u32).to_be_bytes());
+            h.input(&v[..]);
+        }
+    }
+    *h.digest()
+}
+
+// ---------------------------------------------------------------- tampered blocks
+
+fn tamper(w: &World, rng: &mut Rng, block: &Block, kind: u64) -> Option<Block> {
+    use fuel_core_types::fuel_tx::field::{InputContract, MintAmount, MintAssetId, MintGasPrice, OutputContract, TxPointer as TP};
+    use fuel_core_types::fuel_tx::TxPointer;
+    let mut txs: Vec<Transaction> = block.transactions().to_vec();
+    let n = txs.len();
+    let mint = match txs.last() {
+        Some(Transaction::Mint(m)) => m.clone(),
+        _ => return None,
+    };
+    let rebuild = |amount: u64, price: u64, index: u16| -> Transaction {
+        Transaction::mint(
+            TxPointer::new(mint.tx_pointer().block_height(), index),
+            mint.input_contract().clone(),
+            *mint.output_contract(),
+            amount,
+            *mint.mint_asset_id(),
+            price,
+        )
+        .into()
+    };
+    let idx = mint.tx_pointer().tx_index();
+    match kind {
+        0 => {}
+        1 => txs[n - 1] = rebuild(mint.mint_amount().wrapping_add(1), *mint.gas_price(), idx),
+        2 => txs[n - 1] = rebuild(*mint.mint_amount(), mint.gas_price().wrapping_add(1), idx),
+        3 => txs[n - 1] = rebuild(*mint.mint_amount(), *mint.gas_price(), idx.wrapping_add(1)),
+        4 => {
+            txs.pop();
+        }
+        5 => {
+            if n < 2 {
+                return None;
+            }
+            let m = txs.pop().unwrap();
+            txs.insert(0, m);
+        }
+        6 => {
+            if n < 2 {
+                return None;
+            }
+            let k = rng.below(n as u64 - 1) as usize;
+            let t = txs[k].clone();
+            txs.insert(n - 1, t);
+        }
+        7 => {
+            if w.executed.is_empty() {
+                return None;
+            }
+            let t = w.executed[rng.below(w.executed.len() as u64) as usize].clone();
+            txs.insert(n - 1, t);
+        }
+        8 => {
+            let m = txs[n - 1].clone();
+            txs.push(m);
+        }
+        _ => return None,
+    }
+    let mut b = block.clone();
+    *b.transactions_mut() = txs;
+    Some(b)
+}
+
+// ---------------------------------------------------------------- dry runs
+
+/// (request for the model, observed answer, databases untouched, repeated answer identical)
+fn dry_run(w: &mut World, rng: &mut Rng, ex: &Exec, plan: &BlockPlan, height: u32) -> (T, T, bool, bool) {
+    let mut txs: Vec<Transaction> = vec![];
+    for t in plan.txs.iter() {
+        if rng.chance(1, 2) {
+            txs.push(t.clone());
+        }
+    }
+    if txs.is_empty() {
+        if let Some(t) = plan.txs.first() {
+            txs.push(t.clone());
+        }
+    }
+    let forbid = *rng.pick(&[None, Some(true), Some(false)]);
+    let eff_forbid = forbid.unwrap_or(w.forbid);
+    let before = (digest_db(&w.db), digest_db(&w.relayer));
+    let comps = |txs: &Vec<Transaction>| Components {
+        header_to_produce: header(height, plan.da_height),
+        transactions_source: txs.clone(),
+        coinbase_recipient: Default::default(),
+        gas_price: plan.gas_price,
+    };
+    let _ = verif_hooks::take();
+    let r1 = ex.dry_run(comps(&txs), forbid, None, rng.chance(1, 2));
+    let (atts, _) = split_log(verif_hooks::take());
+    let r2 = ex.dry_run(comps(&txs), forbid, None, false);
+    let _ = verif_hooks::take();
+    let after = (digest_db(&w.db), digest_db(&w.relayer));
+    let same = match (&r1, &r2) {
+        (Ok(a), Ok(b)) => format!("{:?}", a.transactions) == format!("{:?}", b.transactions),
+        (Err(a), Err(b)) => format!("{a:?}") == format!("{b:?}"),
+        _ => false,
+    };
+    // oracles per delivered transaction
+    let chain_id = w.params.chain_id();
+    let mut p = 0usize;
+    let mut req = vec![];
+    let mut first_skipped_after_vm = false;
+    let mut found_first = false;
+    for tx in txs.iter() {
+        let id = tx.id(&chain_id);
+        let recs = if atts.get(p).map(|a| a.id == Some(id)).unwrap_or(false) {
+            p += 1;
+            Some(&atts[p - 1])
+        } else {
+            None
+        };
+        if !found_first {
+            match recs {
+                None => found_first = true,
+                Some(r) => {
+                    let included = match atts.get(p) {
+                        Some(nx) => nx.n_status == r.n_status + 1,
+                        None => r1.is_ok(),
+                    };
+                    if !included {
+                        found_first = true;
+                        first_skipped_after_vm = r.vm.is_some();
+                    }
+                }
+            }
+        }
+        req.push(abs_att(w, tx, false, recs, height, plan.gas_price));
+    }
+    let ans = match r1 {
+        Ok(r) => T::l(vec![
+            n(0),
+            T::l(r.transactions.iter().map(|(_, s)| abs::abs_status(&mut w.int, s)).collect()),
+        ]),
+        Err(e) => T::l(vec![n(abs::err_tag(&e, first_skipped_after_vm)), T::l(vec![])]),
+    };
+    (T::l(vec![T::b(eff_forbid), T::l(req)]), ans, before == after, same)
+}
+
 // ---------------------------------------------------------------- one block
 
 pub struct BlockPlan {
@@ -519,7 +681,23 @@ pub fn run_block(w: &mut World, rng: &mut Rng, plan: BlockPlan) -> (T, T) {
     let l1 = T::l(vec![T::b(false), T::l(vec![]), T::l(vec![])]);
     let mut vatts = T::l(vec![]);
     let mut val_out = T::l(vec![]);
-    let mut extra = vec![];
+    let mut same_changes = false;
+    let mut tam_in: Vec<T> = vec![];
+    let mut tam_out: Vec<T> = vec![];
+    // dry runs on the state before the block
+    let mut dry_in: Vec<T> = vec![];
+    let mut dry_out: Vec<T> = vec![];
+    let mut dry_pure = true;
+    let mut dry_same = true;
+    if w.dry {
+        for _ in 0..rng.range(1, 2) {
+            let (rq, ans, pure, same) = dry_run(w, rng, &ex, &plan, height);
+            dry_in.push(rq);
+            dry_out.push(ans);
+            dry_pure &= pure;
+            dry_same &= same;
+        }
+    }
     let prod_out;
     let mint_att;
     match res {
@@ -529,6 +707,11 @@ pub fn run_block(w: &mut World, rng: &mut Rng, plan: BlockPlan) -> (T, T) {
             // the skipped list follows the deliveries that were not included; an attempt was
             // included iff the next attempt saw one more status
             let mut skipped: Vec<(TxId, u64)> = vec![];
+            if std::env::var_os("HEXEC_DEBUG").is_some() {
+                for (_, e) in skipped_transactions.iter() {
+                    eprintln!("skipped: {e:?}");
+                }
+            }
             let mut sk = skipped_transactions.iter();
             let mut next = sk.next();
             for (id, att) in deliveries.iter() {
@@ -579,9 +762,29 @@ pub fn run_block(w: &mut World, rng: &mut Rng, plan: BlockPlan) -> (T, T) {
             let (va, vo, vchanges) = validate(w, &ex, &block, height);
             vatts = va;
             val_out = vo;
-            let same = vchanges.as_ref().map(|c| changes_equal(c, &changes)).unwrap_or(false);
-            extra.push(T::b(same));
+            same_changes = vchanges.as_ref().map(|c| changes_equal(c, &changes)).unwrap_or(false);
+            if w.tamper {
+                for kind in 0..=8u64 {
+                    if kind != 0 && !rng.chance(1, 2) {
+                        continue;
+                    }
+                    if let Some(tb) = tamper(w, rng, &block, kind) {
+                        let (ta, to, _) = validate(w, &ex, &tb, height);
+                        tam_in.push(T::l(vec![n(kind), T::b(kind == 0), ta]));
+                        let tag = match &to {
+                            T::L(v) => v[0].clone(),
+                            x => x.clone(),
+                        };
+                        tam_out.push(tag);
+                    }
+                }
+            }
             if vchanges.is_some() {
+                for t in block.transactions().iter() {
+                    if !matches!(t, Transaction::Mint(_)) {
+                        w.executed.push(t.clone());
+                    }
+                }
                 // commit the production changes together with the block, as the importer does
                 let mut t = w.db.write_transaction();
                 t.commit_changes(changes).expect("merge changes");
@@ -618,16 +821,16 @@ pub fn run_block(w: &mut World, rng: &mut Rng, plan: BlockPlan) -> (T, T) {
         T::l(batches),
         mint_att,
         vatts,
-        T::l(vec![]),
-        T::l(vec![]),
-        T::l(extra),
+        T::l(tam_in),
+        T::l(dry_in),
+        T::l(vec![T::b(same_changes), T::b(true), T::b(dry_pure), T::b(dry_same)]),
     ]);
     let post = dump_state(w);
     let block_out = T::l(vec![
         T::l(vec![prod_out, T::l(hints)]),
         val_out,
-        T::l(vec![]),
-        T::l(vec![]),
+        T::l(tam_out),
+        T::l(dry_out),
         post,
     ]);
     (block_in, block_out)
